@@ -108,7 +108,15 @@ def entropy_reference(Y):
     return float(sum(g(x / n) for x in c))
 
 
-NATIVE.update(dict(wg=wg, went=went, where_idx=where_idx, cntg=cntg, cntgs=cntgs, row=row, rows=rows,
+def space_of(r, n):
+    return int(r * n)
+
+
+def quota_of(r, n, k):
+    return int(int(r * n) / k)
+
+
+NATIVE.update(dict(space_of=space_of, quota_of=quota_of, wg=wg, went=went, where_idx=where_idx, cntg=cntg, cntgs=cntgs, row=row, rows=rows,
                    condsum=condsum, condsum_bg=condsum_bg, condsum_ns=condsum_ns, condsum_bg_ns=condsum_bg_ns,
                    min2=min2, offs=offs))
 
